@@ -61,6 +61,11 @@ pub trait OngoingOperationModule {
     }
 
     fn can_continue_operation(&self, operation_cost: u64) -> bool {
+        #[cfg(feature = "verif-hooks")]
+        if let Some(decision) = crate::verif_hooks::budget_decision() {
+            return decision;
+        }
+
         let gas_left = self.blockchain().get_gas_left();
 
         gas_left > MIN_GAS_TO_SAVE_PROGRESS + operation_cost
